@@ -118,6 +118,19 @@ func GenRefGraph(t *rapid.T, label string) *GraphCase {
 			if rapid.Bool().Draw(t, l+"ObjectRuleSetPos") {
 				items[0], items[1] = items[1], items[0]
 			}
+			if rapid.Bool().Draw(t, l+"ObjectRuleSetRef") {
+				// ... and one more alternative names a type as {type: "@T", nullable: true}
+				items = append(items, ref.OrItem{Rules: []ref.SRule{StrRule("type", pick(l+"B")), BoolRule("nullable", true)}})
+			}
+			switch rapid.IntRange(0, 2).Draw(t, l+"ObjectRuleSetExample") {
+			case 0:
+				// the example is an empty object (the object alternative admits it)
+				return &ref.SNode{Kind: ref.SObj, Rules: []ref.SRule{{Name: "or", ValKind: ref.RVOr, Or: items}}}
+			case 1:
+				// ... an empty array, admitted by one more alternative
+				items = append(items, ref.OrItem{Rules: []ref.SRule{StrRule("type", "array")}})
+				return &ref.SNode{Kind: ref.SArr, Rules: []ref.SRule{{Name: "or", ValKind: ref.RVOr, Or: items}}}
+			}
 			return &ref.SNode{Kind: ref.SLit, Lit: ref.KString, Tok: `"s"`, Str: "s", Rules: []ref.SRule{{Name: "or", ValKind: ref.RVOr, Or: items}}}
 		}
 		return &ref.SNode{Kind: ref.SLit, Lit: ref.KString, Tok: `"s"`, Str: "s"}
@@ -230,6 +243,19 @@ func GenRefGraph(t *rapid.T, label string) *GraphCase {
 			v := refNode(fmt.Sprint(label, "KSV", i))
 			v.Rules = append(v.Rules, BoolRule("optional", true))
 			o.Props = append(o.Props, ref.SProp{Key: kn, KeyTok: kn, Shortcut: true, Val: v})
+			if rapid.IntRange(0, 3).Draw(t, fmt.Sprint(label, "KS2", i)) == 0 {
+				// a second key shortcut in the same object: a string type of its own, or a name nobody added
+				k2 := fmt.Sprintf("@kk%d", keyTypes)
+				if rapid.Bool().Draw(t, fmt.Sprint(label, "KS2Missing", i)) {
+					k2 = fmt.Sprintf("@kmissing%d", 2+i) // (one name per type: an heir must not meet it twice)
+				} else {
+					g.Types[k2] = &ref.SNode{Kind: ref.SLit, Lit: ref.KString, Tok: `"zab"`, Str: "zab", Rules: []ref.SRule{{Name: "regex", ValKind: ref.RVScalar, Tok: `"^z[a-c]{2}$"`}}}
+					gc.Hints[g.Types[k2]] = []*ref.Value{strVal("zab"), strVal("zcc")}
+					gc.Order = append(gc.Order, k2)
+				}
+				v2 := &ref.SNode{Kind: ref.SLit, Lit: ref.KNumber, Tok: "2", Rules: []ref.SRule{BoolRule("optional", true)}}
+				o.Props = append(o.Props, ref.SProp{Key: k2, KeyTok: k2, Shortcut: true, Val: v2})
+			}
 		}
 		g.Types[nm] = o
 		gc.Order = append(gc.Order, nm)
